@@ -53,7 +53,7 @@ def run(tier):
         "states": r.distinct + tstates, "transitions": r.generated + tstates, "traces_validated_against_impl": nrec,
         "samples": [json.loads(lines[0]), json.loads(lines[len(lines) // 2])],
         "abstract_documents": len(vecs), "builtin_documents": 14, "decoder_outcomes": outcomes,
-        "rule": "TLC enumerates every abstract document up to %s mutations deep (28 document-level and 41 x 3 tile-matrix-level mutations: delete key, "
+        "rule": "TLC enumerates every abstract document up to %s mutations deep (37 document-level (9 of them inside the bounding box) and 41 x 3 tile-matrix-level mutations: delete key, "
                 "change type, change value, drop / extend / shorten array); each is applied to all 14 built-in documents; a document in a class the property "
                 "lists must give an error, no document may panic, an accepted document must re-encode and re-decode to an equal value with a byte-stable "
                 "encoding, and the unmutated built-ins must re-encode to JSON equal to the original" % ("1 (all) and 2 (sample of 400)" if tier == "quick" else "2"),
